@@ -49,6 +49,7 @@ func main() {
 	kIndexed(r)
 	kBER(r)
 	kMarker(r)
+	kFlateParams(r)
 	fmt.Fprintf(os.Stderr, "K all %v\n", time.Since(tk))
 	search(r)
 }
@@ -615,6 +616,15 @@ func search(r *vh.Run) {
 	for _, g := range revisionDocs(r.Rand, r.Pick(200, 8000)) {
 		addJob("gen-"+g.name, g.data, []string{"read", "vrelaxed", "info", "optimize"}, "revisionDocs: "+g.name, "")
 		r.Count("input:revisions")
+	}
+	// 2e. /DecodeParms boundaries on every kind of stream (parmsgen.go)
+	for _, g := range decodeParmsDocs(r.Rand, 700, r.Thorough()) {
+		ops := []string{"read", "vrelaxed", "optimize", "info", "images", "pages"}
+		if g.single {
+			ops = append(append([]string(nil), allOps...), "fonts")
+		}
+		addJob("gen-"+g.name, g.data, ops, "decodeParmsDocs: "+g.name, "")
+		r.Count("input:decodeparms")
 	}
 	// 2c. signatures: BER/CMS payloads over the /Contents of the shipped signed samples (sigmut.go)
 	ts := time.Now()
